@@ -377,6 +377,28 @@ func ruleC18e(c *Ctx) {
 	owns := map[*ssa.Function]*own{}
 	for _, sel := range sels {
 		name := p.fname(sel)
+		// a decorator: the selection is left to another RouteSelector, whose answer is returned as it is
+		var inner *ssa.Call
+		eachInstr(sel, func(i ssa.Instruction) {
+			if call, ok := i.(*ssa.Call); ok && call.Call.IsInvoke() && call.Call.Method.Name() == "SelectRoute" {
+				inner = call
+			}
+		})
+		if inner != nil {
+			okAll := true
+			for _, r := range returnsOf(sel) {
+				if r.Block().Comment == "recover" {
+					continue
+				}
+				for k := range r.Results {
+					if !fromCall(p, reach1(p, resultAt(r, k)), inner) {
+						okAll = false
+					}
+				}
+			}
+			c.check(okAll, name, "a delegating selector returns the delegate's answer", p.ipos(inner), "service, route and error are the results of the inner SelectRoute", "this selector calls another RouteSelector but returns something else than its answer")
+			continue
+		}
 		// the stage call: a call (possibly through module wrappers that only forward) whose callee reaches sf
 		var stage *ssa.Call
 		eachInstr(sel, func(i ssa.Instruction) {
@@ -410,7 +432,7 @@ func ruleC18e(c *Ctx) {
 			if len(r.Results) != 3 {
 				continue
 			}
-			svc, rt, er := resultAt(r, 0), resultAt(r, 1), resultAt(r, 2)
+			svc, rt, er := reach1(p, resultAt(r, 0)), reach1(p, resultAt(r, 1)), reach1(p, resultAt(r, 2))
 			behind := stage.Block() == r.Block() || reachableBlocks([]*ssa.BasicBlock{stage.Block()}, nil)[r.Block()]
 			if behind && !(isNilConst(rt) && !isNilConst(er) && !fromCall(p, er, stage)) || fromCall(p, rt, stage) || fromCall(p, er, stage) {
 				okRt := isNilConst(rt) || fromCall(p, rt, stage)
@@ -608,15 +630,6 @@ func ruleCandidateLoopStateless(c *Ctx) {
 	n := 0
 	for _, fn := range scope {
 		cyc := blocksOnCycles(fn)
-		// loop headers: a block that dominates one of its predecessors
-		isHeader := func(b *ssa.BasicBlock) bool {
-			for _, pr := range b.Preds {
-				if b.Dominates(pr) {
-					return true
-				}
-			}
-			return false
-		}
 		var appends []ssa.Instruction
 		eachInstr(fn, func(i ssa.Instruction) {
 			call, ok := i.(*ssa.Call)
@@ -645,97 +658,11 @@ func ruleCandidateLoopStateless(c *Ctx) {
 		}
 		name := p.fname(fn)
 		for _, ap := range appends {
-			// the innermost loop header around the append
-			var header *ssa.BasicBlock
-			for b := ap.Block(); b != nil; b = b.Idom() {
-				if isHeader(b) && cyc[b] && (b == ap.Block() || reachableAfter(ap.Block(), nil)[b]) {
-					header = b
-					break
-				}
-			}
-			if header == nil {
+			why, inLoop := loopCarriedBranch(p, fn, ap)
+			if !inLoop {
 				continue
 			}
 			n++
-			state := map[*ssa.Phi]bool{}
-			for _, ins := range header.Instrs {
-				ph, ok := ins.(*ssa.Phi)
-				if !ok {
-					break
-				}
-				if ph.Comment == "rangeindex" {
-					continue
-				}
-				if _, isSl := ph.Type().Underlying().(*types.Slice); isSl {
-					continue // a collection being built
-				}
-				if b, isB := ph.Type().Underlying().(*types.Basic); isB && b.Info()&types.IsInteger != 0 {
-					// the position of a three-clause loop: used as an index
-					idx := false
-					for _, r := range referrers(ph) {
-						switch y := r.(type) {
-						case *ssa.IndexAddr:
-							idx = idx || y.Index == ssa.Value(ph)
-						case *ssa.Index:
-							idx = idx || y.Index == ssa.Value(ph)
-						}
-					}
-					if idx {
-						continue
-					}
-				}
-				state[ph] = true
-			}
-			why := ""
-			var dep func(v ssa.Value, d int) *ssa.Phi
-			dep = func(v ssa.Value, d int) *ssa.Phi {
-				if d > 6 || v == nil {
-					return nil
-				}
-				switch x := v.(type) {
-				case *ssa.Phi:
-					if state[x] {
-						return x
-					}
-					if x.Block() != header {
-						for _, e := range x.Edges {
-							if r := dep(e, d+1); r != nil {
-								return r
-							}
-						}
-					}
-				case *ssa.BinOp:
-					if r := dep(x.X, d+1); r != nil {
-						return r
-					}
-					return dep(x.Y, d+1)
-				case *ssa.UnOp:
-					if x.Op != token.MUL {
-						return dep(x.X, d+1)
-					}
-				case *ssa.ChangeType:
-					return dep(x.X, d+1)
-				case *ssa.Convert:
-					return dep(x.X, d+1)
-				}
-				return nil
-			}
-			for _, b := range fn.Blocks {
-				if !cyc[b] || !header.Dominates(b) || !reachableAfter(b, nil)[header] {
-					continue
-				}
-				iff, ok := b.Instrs[len(b.Instrs)-1].(*ssa.If)
-				if !ok {
-					continue
-				}
-				if ph := dep(iff.Cond, 0); ph != nil {
-					nm := ph.Comment
-					if nm == "" {
-						nm = ph.Name()
-					}
-					why = "the branch at " + p.ipos(iff) + " is decided by " + nm + ", carried over from earlier iterations"
-				}
-			}
 			c.check(why == "", name, "each route is admitted on its own", p.ipos(ap), "no branch of the collecting loop reads a variable carried from one iteration to the next",
 				why+": whether a route becomes a candidate depends on the routes visited before it, i.e. on registration order, and the candidate set differs from the one the sibling router collects")
 		}
@@ -902,5 +829,164 @@ func ruleC18h(c *Ctx) {
 	}
 	if n == 0 {
 		c.undecided("-", "WebService admission", "-", "no place found where a selector admits a WebService (candidate append or best-so-far update)")
+	}
+}
+
+// reach1: a load of a local that one store reaches stands for the stored value (named results kept in memory
+// because a deferred function literal reads them).
+func reach1(p *Program, v ssa.Value) ssa.Value {
+	for hop := 0; hop < 4; hop++ {
+		u, ok := strip(v).(*ssa.UnOp)
+		if !ok || u.Op != token.MUL {
+			return v
+		}
+		a, ok := u.X.(*ssa.Alloc)
+		if !ok {
+			return v
+		}
+		sts, zero, ok := p.reachingStores(u, a)
+		if !ok || zero || len(sts) != 1 {
+			return v
+		}
+		v = sts[0].Val
+	}
+	return v
+}
+
+// loopCarriedBranch: ap lies in a loop; is a branch of that loop decided by a variable carried from one iteration to
+// the next (a phi of the loop header) other than the range index, an integer used as an index, or a slice?
+func loopCarriedBranch(p *Program, fn *ssa.Function, ap ssa.Instruction) (why string, inLoop bool) {
+	header, loop := innermostLoop(ap.Block())
+	if header == nil {
+		return "", false
+	}
+	state := map[*ssa.Phi]bool{}
+	for _, ins := range header.Instrs {
+		ph, ok := ins.(*ssa.Phi)
+		if !ok {
+			break
+		}
+		if ph.Comment == "rangeindex" {
+			continue
+		}
+		if _, isSl := ph.Type().Underlying().(*types.Slice); isSl {
+			continue // a collection being built
+		}
+		if b, isB := ph.Type().Underlying().(*types.Basic); isB && b.Info()&types.IsInteger != 0 {
+			// the position of a three-clause loop: used as an index
+			idx := false
+			for _, r := range referrers(ph) {
+				switch y := r.(type) {
+				case *ssa.IndexAddr:
+					idx = idx || y.Index == ssa.Value(ph)
+				case *ssa.Index:
+					idx = idx || y.Index == ssa.Value(ph)
+				}
+			}
+			if idx {
+				continue
+			}
+		}
+		state[ph] = true
+	}
+	var dep func(v ssa.Value, d int) *ssa.Phi
+	dep = func(v ssa.Value, d int) *ssa.Phi {
+		if d > 6 || v == nil {
+			return nil
+		}
+		switch x := v.(type) {
+		case *ssa.Phi:
+			if state[x] {
+				return x
+			}
+			if x.Block() != header {
+				for _, e := range x.Edges {
+					if r := dep(e, d+1); r != nil {
+						return r
+					}
+				}
+			}
+		case *ssa.BinOp:
+			if r := dep(x.X, d+1); r != nil {
+				return r
+			}
+			return dep(x.Y, d+1)
+		case *ssa.UnOp:
+			if x.Op != token.MUL {
+				return dep(x.X, d+1)
+			}
+		case *ssa.ChangeType:
+			return dep(x.X, d+1)
+		case *ssa.Convert:
+			return dep(x.X, d+1)
+		}
+		return nil
+	}
+	for _, b := range fn.Blocks {
+		if !loop[b] {
+			continue
+		}
+		iff, ok := b.Instrs[len(b.Instrs)-1].(*ssa.If)
+		if !ok {
+			continue
+		}
+		if ph := dep(iff.Cond, 0); ph != nil {
+			nm := ph.Comment
+			if nm == "" {
+				nm = ph.Name()
+			}
+			why = "the branch at " + p.ipos(iff) + " is decided by " + nm + ", carried over from earlier iterations"
+		}
+	}
+	return why, true
+}
+
+// C17.i: the methods of a URL are collected route by route. In a loop that adds Route.Method values to a list no
+// branch reads a variable carried over from earlier iterations: a "most specific template so far" that resets the
+// list makes the OPTIONS answer (and the preflight default) name fewer methods than the routers serve.
+func ruleMethodLoopStateless(c *Ctx) {
+	p := c.P
+	n := 0
+	for _, fn := range p.requestPathFuncs() {
+		if fn.Blocks == nil || !p.inModule(fn) {
+			continue
+		}
+		name := p.fname(fn)
+		eachInstr(fn, func(i ssa.Instruction) {
+			call, ok := i.(*ssa.Call)
+			if !ok || !isBuiltinCall(call, "append") || !isStringSlice(call.Type()) || len(call.Call.Args) < 2 {
+				return
+			}
+			// appended elements: Method of a route
+			isMethod := false
+			if sl, ok := strip(call.Call.Args[1]).(*ssa.Slice); ok {
+				if a, ok := sl.X.(*ssa.Alloc); ok {
+					for _, ref := range referrers(a) {
+						if ia, ok := ref.(*ssa.IndexAddr); ok {
+							for _, rr := range referrers(ia) {
+								if st, ok := rr.(*ssa.Store); ok && st.Addr == ssa.Value(ia) {
+									if b, f, ok := fieldLoad(strip(st.Val)); ok && f.Name() == "Method" && isRouteish(b.Type()) {
+										isMethod = true
+									}
+								}
+							}
+						}
+					}
+				}
+			}
+			if !isMethod {
+				return
+			}
+			why, inLoop := loopCarriedBranch(p, fn, i)
+			if !inLoop {
+				return
+			}
+			n++
+			c.check(why == "", name, "each route's method is collected on its own", p.ipos(i), "no branch of the collecting loop reads a variable carried from one iteration to the next",
+				why+": which methods are listed depends on more than whether each route matches the URL - the list names fewer methods than are routable there")
+		})
+	}
+	if n == 0 {
+		c.note("-", "no loop collects Route.Method values", "-", "nothing to decide")
 	}
 }
